@@ -61,6 +61,8 @@ var serverScenarios = []struct{ name, prop string }{
 	{"catalogue-replay", "C14"},
 	{"restart-replay", "C18"},
 	{"restart-serving", "C18"},
+	{"crash-torn-write", "C03"},
+	{"crash-under-load", "C03"},
 	{"placement-members", "C16"},
 	{"membership", "C20"},
 	{"membership-late-leader", "C20"},
@@ -93,6 +95,10 @@ func runServers(c *Ctx) {
 				srvReplayCreateDelete(c, "C18", rng)
 			case "restart-serving":
 				srvRestartServing(c, rng.Intn(2) == 0)
+			case "crash-torn-write":
+				srvCrashTornWrite(c, rng)
+			case "crash-under-load":
+				srvCrashUnderLoad(c, rng, c.Pick(3, 12))
 			case "placement-members":
 				srvPlacementMembers(c)
 			case "membership":
@@ -1403,4 +1409,221 @@ func srvMembershipRejoin(cx *Ctx, hard bool) {
 	out.Nontrivial("restart-after-rejoin")
 	time.Sleep(2 * time.Second) // the partitions' groups replay their own logs too
 	check("after member 1 restarted (its partitions' logs still hold member 3's departure from their replica sets)", []uint64{1, 2, 3}, want(1, 2, 3))
+}
+
+// ---- C03: a kill at any instant, also in the middle of a write to the store's value log
+//
+// The store of a real server is what server.go opens (its options are the code's, not the harness's).
+// A process killed inside write(2) leaves a prefix of the buffer it was appending at the end of the
+// newest value-log file (the kernel stops copying pages when a fatal signal is pending). torn-write
+// produces exactly that state after a SIGKILL: a prefix of a well-formed record appended to the newest
+// value-log file; under-load kills the process at random instants while writes are being acknowledged
+// and leaves the files as the kill left them. Either way the node must start again and serve every
+// write it acknowledged.
+
+func (c *srvCluster) insertAcked(via uint64, ds []byte, n int, from int) ([][]byte, error) {
+	var ids [][]byte
+	for i := 0; i < n; i++ {
+		id := uuid.NewV4().Bytes()
+		ctx, cancel := context.WithTimeout(context.Background(), 3*time.Second)
+		_, err := pb.NewDataManagerClient(c.nodes[via].conn).Insert(ctx, &pb.InsertRequest{DatasetId: ds, Id: id, Value: []float32{float32(from + i), 1, 2, 3}})
+		cancel()
+		if err != nil {
+			return ids, err
+		}
+		ids = append(ids, id)
+	}
+	return ids, nil
+}
+
+func (c *srvCluster) sizeOf(via uint64, ds []byte) (uint64, error) {
+	ctx, cancel := context.WithTimeout(context.Background(), 3*time.Second)
+	defer cancel()
+	r, err := pb.NewDatasetManagerClient(c.nodes[via].conn).GetDatasetSize(ctx, &pb.GetDatasetRequest{DatasetId: ds})
+	if err != nil {
+		return 0, err
+	}
+	return r.GetLen(), nil
+}
+
+// holds: the node holds an item under id — a second insert under the same id is refused with
+// "Item already exists" (exact, unlike a search)
+func (c *srvCluster) holds(via uint64, ds []byte, id []byte, vec []float32) (bool, error) {
+	ctx, cancel := context.WithTimeout(context.Background(), 3*time.Second)
+	defer cancel()
+	_, err := pb.NewDataManagerClient(c.nodes[via].conn).Insert(ctx, &pb.InsertRequest{DatasetId: ds, Id: id, Value: vec})
+	if err == nil {
+		return false, nil
+	}
+	if strings.Contains(err.Error(), "Item already exists") {
+		return true, nil
+	}
+	return false, err
+}
+
+// newestValueLog: the value-log file of the server's store with the highest number
+func newestValueLog(dir string) string {
+	fs, _ := filepath.Glob(filepath.Join(dir, "anndb", "*.vlog"))
+	sort.Strings(fs)
+	if len(fs) == 0 {
+		return ""
+	}
+	return fs[len(fs)-1]
+}
+
+// servedAfterRestart: the restarted node serves all n acknowledged items (the size says at least n, the
+// item written last is there: a second insert under its id is refused)
+func (c *srvCluster) servedAfterRestart(ds []byte, n int, lastId []byte, lastVec []float32, sig, how string) bool {
+	var got uint64
+	var err error
+	ok := waitForSlow(40*time.Second, func() bool {
+		got, err = c.sizeOf(1, ds)
+		return err == nil && got >= uint64(n)
+	})
+	if !ok {
+		c.out.Violate("C03", sig, fmt.Sprintf("%s: %d writes were acknowledged; 40 s after the restart the node reports %d items (error: %v)", how, n, got, err))
+		return false
+	}
+	var has bool
+	ok = waitForSlow(20*time.Second, func() bool {
+		has, err = c.holds(1, ds, lastId, lastVec)
+		return err == nil
+	})
+	if !ok {
+		c.out.Local("the restarted node did not answer the probe for the last acknowledged item within 20 s (%v): not judged", err)
+		return true
+	}
+	if !has {
+		c.out.Violate("C03", sig, fmt.Sprintf("%s: the write acknowledged last (id %x) is not there after the restart (the node reports %d items, %d were acknowledged): an insert under the same id was accepted", how, lastId, got, n))
+		return false
+	}
+	return true
+}
+
+func srvCrashTornWrite(cx *Ctx, r *Rng) {
+	c := newSrvCluster(cx, "C03")
+	out := c.out
+	cut := 3 + r.Intn(14)
+	out.Begin(fmt.Sprintf("servers crash-torn-write cut=%d", cut))
+	defer out.End()
+	defer c.close()
+	if err := c.start(1); err != nil {
+		out.Local("set-up failed: %v", err)
+		return
+	}
+	ds, _, err := c.createPatiently(1, 4, 1, 1, 30*time.Second)
+	if err != nil {
+		out.Local("set-up: create failed: %v", err)
+		return
+	}
+	n := 30 + r.Intn(30)
+	ids, err := c.insertAcked(1, ds.GetId(), n, 0)
+	if err != nil {
+		out.Local("set-up: insert %d failed: %v", len(ids), err)
+		return
+	}
+	out.Local("one node, one dataset, %d inserts acknowledged", n)
+	c.stop(1, true)
+	vl := newestValueLog(c.nodes[1].dir)
+	b, err := ioutil.ReadFile(vl)
+	const vlogHeader = 20
+	if vl == "" || err != nil || len(b) < vlogHeader+cut+8 {
+		out.Local("no value-log file with a record in it under %s (%v): scenario not reached", c.nodes[1].dir, err)
+		return
+	}
+	f, err := os.OpenFile(vl, os.O_APPEND|os.O_WRONLY, 0644)
+	if err != nil {
+		out.Local("cannot append to %s: %v", vl, err)
+		return
+	}
+	f.Write(b[vlogHeader : vlogHeader+cut]) // the first cut bytes of a well-formed record: a write the kill interrupted
+	f.Close()
+	out.Local("SIGKILL; the write in progress had appended the first %d bytes of its record to %s (%d bytes before)", cut, filepath.Base(vl), len(b))
+	out.Nontrivial("torn-record-at-the-tail")
+	if err := c.start(1); err != nil {
+		out.Violate("C03", "C03/servers/restart-after-torn-write-fails", fmt.Sprintf("after a kill in the middle of a write to the value log (%d acknowledged writes before it, the first %d bytes of the next record on disk) the node does not start again: %v", n, cut, err))
+		return
+	}
+	if c.servedAfterRestart(ds.GetId(), n, ids[n-1], []float32{float32(n - 1), 1, 2, 3}, "C03/servers/acknowledged-write-lost", "kill in the middle of a write to the value log") {
+		out.Local("the node restarted and serves all %d acknowledged writes", n)
+	}
+}
+
+func srvCrashUnderLoad(cx *Ctx, r *Rng, kills int) {
+	c := newSrvCluster(cx, "C03")
+	out := c.out
+	out.Begin(fmt.Sprintf("servers crash-under-load kills=%d", kills))
+	defer out.End()
+	defer c.close()
+	if err := c.start(1); err != nil {
+		out.Local("set-up failed: %v", err)
+		return
+	}
+	ds, _, err := c.createPatiently(1, 4, 1, 1, 30*time.Second)
+	if err != nil {
+		out.Local("set-up: create failed: %v", err)
+		return
+	}
+	acked := 0
+	var lastId []byte
+	for k := 0; k < kills; k++ {
+		// writers acknowledge as fast as the node answers; the kill falls somewhere among them
+		var stopped int32
+		var mu sync.Mutex
+		var wg sync.WaitGroup
+		base := acked
+		type ack struct {
+			n  int
+			id []byte
+		}
+		var acks []ack
+		for w := 0; w < 4; w++ {
+			wg.Add(1)
+			go func(w int) {
+				defer wg.Done()
+				for i := 0; ; i++ {
+					id := uuid.NewV4().Bytes()
+					num := base + w*100000 + i
+					ctx, cancel := context.WithTimeout(context.Background(), 2*time.Second)
+					_, err := pb.NewDataManagerClient(c.nodes[1].conn).Insert(ctx, &pb.InsertRequest{DatasetId: ds.GetId(), Id: id, Value: []float32{float32(num), float32(k), 2, 3}, Metadata: map[string]string{"pad": strings.Repeat("x", 200)}})
+					cancel()
+					if err != nil {
+						if atomic.LoadInt32(&stopped) != 0 {
+							return
+						}
+						time.Sleep(20 * time.Millisecond) // no leader yet, or the node is still replaying
+						continue
+					}
+					mu.Lock()
+					acks = append(acks, ack{num, id})
+					mu.Unlock()
+				}
+			}(w)
+		}
+		// the kill comes a random while after the first acknowledgement
+		waitForSlow(20*time.Second, func() bool { mu.Lock(); defer mu.Unlock(); return len(acks) > 0 })
+		time.Sleep(time.Duration(20+r.Intn(500)) * time.Millisecond)
+		atomic.StoreInt32(&stopped, 1)
+		c.stop(1, true)
+		wg.Wait()
+		acked += len(acks)
+		if len(acks) == 0 {
+			out.Local("kill %d: nothing was acknowledged before it", k+1)
+		} else {
+			out.Local("kill %d: SIGKILL after %d further acknowledged inserts (%d in all)", k+1, len(acks), acked)
+			out.Nontrivial("killed-while-acknowledging")
+		}
+		if err := c.start(1); err != nil {
+			out.Violate("C03", "C03/servers/restart-after-kill-fails", fmt.Sprintf("after SIGKILL number %d, %d acknowledged writes in all, the node does not start again: %v", k+1, acked, err))
+			return
+		}
+		if len(acks) > 0 {
+			last := acks[len(acks)-1]
+			lastId = last.id
+			if !c.servedAfterRestart(ds.GetId(), acked, lastId, []float32{float32(last.n), float32(k), 2, 3}, "C03/servers/acknowledged-write-lost", fmt.Sprintf("SIGKILL number %d while inserts were being acknowledged", k+1)) {
+				return
+			}
+		}
+	}
+	out.Local("%d kills, %d acknowledged writes, all served after every restart", kills, acked)
 }
